@@ -182,11 +182,11 @@ def space(tier):
     A = atoms_all()
     out = _with_not(A) + ARITH
     out += _with_not(_pairs(A_PAIR, A_PAIR))
-    out += _with_not(_pairs_not(A_SMALL))
+    out += _pairs_not(A_SMALL)
     out += _triples(A_TRI) + [f"NOT ({s})" for s in _triples(A_TRI, (0, 1))]
     if tier == "thorough":  # a superset of quick
-        out += [f"NOT ({s})" for s in _triples(A_TRI, (2, 3))]
-        out += _pairs(A_PAIR, A) + _pairs(A, A_PAIR)
+        out += [f"NOT ({s})" for s in _triples(A_TRI, (2, 3))] + [f"NOT ({s})" for s in _pairs_not(A_SMALL)]
+        out += _pairs(A_PAIR, A)
         out += _with_not(_triples(A_MED))
         out += _quads(A_QUAD)
     out = list(dict.fromkeys(out))
@@ -377,9 +377,6 @@ class Recorder:
         self.suppressed = 0
         self.exc_rule = None
 
-    def snapshot(self, node):
-        return snapshot(node)
-
     def after(self, rule, before, result, frame, unchanged_identity=None):
         self.calls[rule] += 1
         if result is None or result is unchanged_identity:
@@ -410,19 +407,21 @@ REC = None  # active recorder, or None (wrappers pass through)
 
 
 def _make_wrapper(rule, orig, mode):
+    idx = 1 if mode == "method" else 0
+
     def wrapper(*args, **kwargs):
         rec = REC
         if rec is None:
             return orig(*args, **kwargs)
-        ident = None
+        ident = node = None
         try:
-            if mode == "method":
-                before = rec.snapshot(args[1])
-            elif mode == "function":
-                before = rec.snapshot(args[0])
+            if mode == "method" or mode == "function":
+                node = args[idx]
+                h = hash(node)
+                before = _SNAP.get((node.__class__, h)) or snapshot(node)
             elif mode == "comparison":  # _simplify_comparison(self, expression, left, right, or_=False)
                 _, expression, left, right = args[:4]
-                before = (type(expression), rec.snapshot(left), rec.snapshot(right))  # node built only on change
+                before = (type(expression), snapshot(left), snapshot(right))  # node built only on change
                 ident = expression  # 'return expression' means: no change
             elif mode == "distribute":  # _distribute(a, b, from_func, to_func, simplifier)
                 a, b, from_func = args[:3]
@@ -442,6 +441,11 @@ def _make_wrapper(rule, orig, mode):
         finally:
             rec.stack.pop()
         try:
+            if node is not None and result is node and node._hash == h:
+                # same object and its cached structural hash survived: set/replace/append clear the cached hash of the
+                # mutated node and of its ancestors, so a surviving equal hash means no structural change
+                rec.calls[rule] += 1
+                return result
             rec.after(rule, before, result, frame, ident)
         except Exception as ex:  # noqa: BLE001
             raise CheckerError(f"step check for {rule}: {ex!r}") from ex
@@ -702,9 +706,9 @@ def run(tier, seed):
         "distinct_nontrivial": stats["distinct_nontrivial"],
         "rule": "distinct input texts inside the eval3 fragment for which at least one function returned a changed "
                 "expression or at least one observed rule application changed its node",
-        "bound": f"tier {tier}: {len(texts)} expressions (atoms, NOT atoms, all pairs over {len(A_PAIR)} atoms, NOT-ed pairs "
-                 f"over {len(A_SMALL)}, all triples over {len(A_TRI)} atoms in 4 groupings, each also under NOT (quick: triples under NOT "
-                 "in the 2 parenthesised groupings only)"
+        "bound": f"tier {tier}: {len(texts)} expressions (atoms, NOT atoms, all pairs over {len(A_PAIR)} atoms, pairs with NOT-ed operands "
+                 f"over {len(A_SMALL)}, all triples over {len(A_TRI)} atoms in 4 groupings, each also under NOT (quick: NOT-operand pairs not under NOT, "
+                 "triples under NOT in the 2 parenthesised groupings only)"
                  + (f", thorough: pairs of the {len(A_PAIR)} with every atom, triples over {len(A_MED)} atoms, depth-3 "
                     f"over {len(A_QUAD)} atoms" if tier == "thorough" else "")
                  + "); x typed/untyped x {simplify, simplify(cp), normalize cnf/dnf} x dialects {None, mysql, redshift}"
